@@ -37,6 +37,7 @@ struct SideCfg {
 struct Setup {
     SideCfg cli, srv;
     bool accept_override = false, keep_open = false, reversed = false;
+    bool accept_relax = false;   // the server got its whole policy (with explicit CA / CRL / names) at creation; the accept map switches one feature off
     std::string tp;
     int edit_before = 0;       // 0 none, 1 rewrite in place (equal size), 2 write-new + rename over, 3 symlink flip, 4 environment switch
 };
@@ -88,6 +89,7 @@ static void gen(uint64_t seed, const std::string &prop, Plan &plan) {
         o.n.push_back((int64_t)r.chance(0.5));   // keep open
         o.n.push_back((int64_t)r.chance(0.1));   // reversed TLS roles
         o.n.push_back((int64_t)(r.chance(0.5) ? r.below(5) : 0));   // edit before
+        o.n.push_back((int64_t)r.chance(0.2));   // the xcm_accept_a map switches one feature of the server's policy off
         plan.ops.push_back(o);
     }
     p["step_budget"] = 900000;
@@ -311,11 +313,23 @@ static void program(const Plan *pl) {
             // ---- run the handshake; both sides offer a tagged message as early as the API lets them
             SideRun C, S;
             C.x = cli;
+            SideCfg eff_srv = st.srv;   // the policy in force on the accepted connection
+            const char *relaxed = "";
+            int relax_kind = !st.accept_relax ? 0 : st.srv.check_crl ? 1 : st.srv.verify_name ? 2 : 3;
+            if (relax_kind == 1) { eff_srv.check_crl = false; relaxed = "tls.check_crl=false"; }
+            else if (relax_kind == 2) { eff_srv.verify_name = false; relaxed = "tls.verify_peer_name=false"; }
+            else if (relax_kind == 3) { eff_srv.auth = false; relaxed = "tls.auth=false"; }
             std::string ctag = strf("CTAG-%d-from-client", sidx), stag = strf("STAG-%d-from-server", sidx);
             bool accept_failed = false;
             for (int round = 0; round < 120 && !G->stopping; round++) {
                 if (!S.x && !accept_failed) {
                     struct xcm_attr_map *am = st.accept_override ? attrs_for(st.srv, cid, false, st.reversed ? 1 : -1, true, false, sfiles, true) : nullptr;
+                    if (st.accept_relax) {
+                        // values inherited from the server that the override makes unnecessary (the CA bundle without authentication,
+                        // the CRL without the CRL check, the names without the name check) are not a contradiction
+                        am = xcm_attr_map_create();
+                        xcm_attr_map_add_bool(am, relax_kind == 1 ? "tls.check_crl" : relax_kind == 2 ? "tls.verify_peer_name" : "tls.auth", false);
+                    }
                     if (am && stream) { /* service is inherited */ }
                     XSock *a = x_accept(srv, am, strf("acc%d", sidx));
                     int ae = errno;
@@ -323,6 +337,8 @@ static void program(const Plan *pl) {
                     if (a) { S.x = a; TX->open.push_back(a); }
                     else if (ae != EAGAIN) {
                         accept_failed = true;
+                        if (st.accept_relax && ae == EINVAL)
+                            G->violation("C11.accept_override_refused", "xcm_accept_a with %s in its map failed with EINVAL on a server that was given its CA bundle, CRL and peer names explicitly: an inherited value that the override makes unnecessary is treated as a contradiction", relaxed);
                         if (st.accept_override && st.srv.invalid) { if (ae != EINVAL) G->violation("C09.invalid_combination_errno", "xcm_accept_a with an invalid TLS policy combination (%d) failed with %s, expected EINVAL", st.srv.invalid, strerror(ae)); }
                         else S.term = ae;
                     }
@@ -337,7 +353,7 @@ static void program(const Plan *pl) {
             bool judge = !(st.accept_override && st.srv.invalid);
             // ---- C09 invariants
             if (judge) {
-                bool mf_c = must_fail(cc, sid, tls_client_side(true, st.reversed)), mf_s = must_fail(st.srv, cid, tls_client_side(false, st.reversed));
+                bool mf_c = must_fail(cc, sid, tls_client_side(true, st.reversed)), mf_s = must_fail(eff_srv, cid, tls_client_side(false, st.reversed));
                 std::string ctx = strf("[set-up %d %s: client presents %s (issuer %d validity %d eku %d revoked %d), server presents %s (issuer %d validity %d eku %d revoked %d)%s; client policy auth=%d time=%d crl=%d name=%d/%d tc=%d; server policy auth=%d time=%d crl=%d name=%d/%d tc=%d%s%s]",
                                        sidx, st.tp.c_str(), cid.cn.c_str(), cid.issuer, cid.validity, cid.eku, (int)cid.revoked, sid.cn.c_str(), sid.issuer, sid.validity, sid.eku, (int)sid.revoked, TX->pki.inter_revoked ? ", intermediate revoked" : "",
                                        (int)cc.auth, (int)cc.check_time, (int)cc.check_crl, (int)cc.verify_name, cc.names_kind, cc.tc_mask, (int)st.srv.auth, (int)st.srv.check_time, (int)st.srv.check_crl, (int)st.srv.verify_name, st.srv.names_kind, st.srv.tc_mask,
@@ -360,7 +376,7 @@ static void program(const Plan *pl) {
                         G->count("probe.tls_established");
                         // C18: each side presents the identity designated at the time of its creating call
                         if ((tls_client_side(true, st.reversed) || cc.auth) && C.seen_cn != sid.cn) G->violation("C18.wrong_identity", "set-up %d: the server socket was created with %s designated (%s), the client sees \"%s\" %s", sidx, sid.cn.c_str(), st.srv.supply == SUP_DIR ? "directory files" : st.srv.supply == SUP_FILES ? "per-socket files" : st.srv.supply == SUP_VALUE ? "by value" : "cert+key by value, rest from the directory", C.seen_cn.c_str(), ctx.c_str());
-                        if ((tls_client_side(false, st.reversed) || st.srv.auth) && S.seen_cn != cid.cn) G->violation("C18.wrong_identity", "set-up %d: the client connected with %s designated (%s), the server sees \"%s\" %s", sidx, cid.cn.c_str(), cc.supply == SUP_DIR ? "directory files" : cc.supply == SUP_FILES ? "per-socket files" : cc.supply == SUP_VALUE ? "by value" : "cert+key by value, rest from the directory", S.seen_cn.c_str(), ctx.c_str());
+                        if ((tls_client_side(false, st.reversed) || eff_srv.auth) && S.seen_cn != cid.cn) G->violation("C18.wrong_identity", "set-up %d: the client connected with %s designated (%s), the server sees \"%s\" %s", sidx, cid.cn.c_str(), cc.supply == SUP_DIR ? "directory files" : cc.supply == SUP_FILES ? "per-socket files" : cc.supply == SUP_VALUE ? "by value" : "cert+key by value, rest from the directory", S.seen_cn.c_str(), ctx.c_str());
                     }
                 }
             }
@@ -399,6 +415,7 @@ static void setup(const Plan &plan) {
         }
         if (st.srv.supply == SUP_MIXED) st.srv.supply = SUP_DIR;   // (the server's directory is the process-wide one)
         st.accept_override = op.arg(18) != 0; st.keep_open = op.arg(19) != 0; st.reversed = op.arg(20) != 0; st.edit_before = (int)op.arg(21);
+        st.accept_relax = op.arg(22) != 0 && !st.accept_override && !st.srv.invalid && st.srv.auth;
         if (st.srv.invalid && st.cli.invalid) st.cli.invalid = 0;
         TX->setups.push_back(st);
     }
